@@ -4,13 +4,14 @@ PROPS["C12"] = dict(
     rule="case = pool limit 1/2/3/10, idle timeout 5 ms (workers leave during the batch) / 20 ms / 30 s, pool warm or cold, and a script that issues "
          "1..40 futures with delays from {-5,0,1,2,5,10,20,35,60} ms (many ties, bursts of equal deadlines), some with callbacks blocking 1..20 ms, "
          "from the driver or from goroutines of their own, interleaved with Cancel calls (any future by index or the head of the queue, 1..3 times, "
-         "before or after firing, from another goroutine) and short sleeps. t0 is read immediately before Call (fire time is computed after it), "
+         "before or after firing, from another goroutine) and short sleeps; a 'neighbour' step issues two futures 3..200 microseconds apart with the same delay while a busy callback frees a worker exactly at the first deadline. t0 is read immediately before Call (fire time is computed after it), "
          "Cancel's return time immediately after it returns. non-trivial = a Cancel removed a pending future that was not the latest of >= 3 "
          "pending ones, or a Cancel returned within 2 ms of the due time; distinct = hash of the case",
     assumptions=["monotonic clock readings of one process are comparable; all C12 oracles are one-sided or exact, none depends on a tolerance",
                  "'never started' is observed until the batch is over + 100 ms; a future that is never started in a batch without any Cancel is left to C13",
                  "a lost future (4 s) is confirmed by one re-run before it is reported"],
     units=[
+        dict(name="neighbours", run="^TestC12Neighbours$", shards=1, timeout=(300, 1800)),
         dict(name="rapid", run="^TestC12Rapid$", checks=(40, 1500), shards=(6, 16), timeout=(300, 1800), shrinktime="20s"),
     ],
 )
